@@ -191,6 +191,15 @@ impl GenerationPass for AvailableValuePass {
                 if node.calls_to().is_some() {
                     out_reg_n -= Register::return_addr_set().iter();
                 }
+                // An environment call writes its results over what the
+                // registers held: the ones its signature names when the call
+                // is known, the return registers otherwise.
+                if node.is_ecall() {
+                    let rets = node
+                        .known_ecall_signature()
+                        .map_or_else(Register::return_set, |(_, rets)| rets);
+                    out_reg_n -= (rets - Register::const_zero_set()).iter();
+                }
                 if let Some((reg, reg_value)) = node.gen_reg_value() {
                     out_reg_n.insert(reg, reg_value);
                 }
